@@ -174,3 +174,27 @@ def leaves(p, T=ID):
     if k in TRANSFORM_KINDS:
         return leaves(p.paint, mul(T, ot_transform(p)))
     return []
+
+
+class GhostPath(NamedTuple):
+    """stand-in for picosvg SVGPath: only the path data and what transforming it yields
+    (an uninterpreted function of the data and the affine) matter to nanoemoji's logic"""
+
+    d: Any
+
+    def apply_transform(self, transform):
+        from vlib import ufn
+
+        return GhostPath(ufn("svgpath_apply_transform", "str", self.d, tuple(transform)))
+
+
+def net(p):
+    """(accumulated affine, innermost paint) through any chain of wrapping transforms"""
+    k = kind(p)
+    if k == "Wrapped":
+        inner = net(p.paint)
+        return (mul(p.m, inner[0]), inner[1])
+    if k in TRANSFORM_KINDS:
+        inner = net(p.paint)
+        return (mul(ot_transform(p), inner[0]), inner[1])
+    return (ID, p)
